@@ -5,6 +5,9 @@ import (
 	"bytes"
 	"errors"
 	"fmt"
+	"github.com/yuin/goldmark/ast"
+	"github.com/yuin/goldmark/renderer"
+	"github.com/yuin/goldmark/util"
 	"io"
 	"strings"
 
@@ -61,11 +64,41 @@ func (r richWriter) WriteByte(c byte) error {
 }
 func (r richWriter) WriteRune(c rune) (int, error) { return r.f.Write([]byte(string(c))) }
 
-var c14Variants = []string{"plain io.Writer", "caller bufio.Writer(16)", "io.Writer, transient failure", "writer with WriteByte/WriteString/WriteRune", "same, transient failure"}
+var c14Variants = []string{"plain io.Writer", "caller bufio.Writer(16)", "io.Writer, transient failure", "writer with WriteByte/WriteString/WriteRune", "same, transient failure", "plain io.Writer, with a user node renderer that flushes after each paragraph and returns the error it gets"}
+
+// c14Flusher is a user-supplied node renderer for paragraphs that, unlike the built-in ones, looks at what the buffered
+// writer reports: it flushes when it leaves a paragraph and hands a failure back to the walk.
+type c14Flusher struct{}
+
+func (c14Flusher) RegisterFuncs(reg renderer.NodeRendererFuncRegisterer) {
+	reg.Register(ast.KindParagraph, func(w util.BufWriter, source []byte, n ast.Node, entering bool) (ast.WalkStatus, error) {
+		if entering {
+			_, _ = w.WriteString("<p>")
+			return ast.WalkContinue, nil
+		}
+		_, _ = w.WriteString("</p>\n")
+		if err := w.Flush(); err != nil {
+			return ast.WalkStop, err
+		}
+		return ast.WalkContinue, nil
+	})
+}
 
 // c14Case runs one faulted conversion.
 func c14Case(s *core.Sub, cfg core.Cfg, src, ref []byte, k, variant int) {
 	md := cfg.New()
+	if variant == 5 {
+		md.Renderer().AddOptions(renderer.WithNodeRenderers(util.Prioritized(c14Flusher{}, 1)))
+		var good bytes.Buffer
+		if err := md.Convert(src, &good); err != nil {
+			s.Violate("error-without-failure:v5", cfg.String(), src, nil, "healthy writer, yet Convert returned "+err.Error(), "nil", err.Error())
+			return
+		}
+		ref = good.Bytes()
+		if k > len(ref)+1 {
+			k = len(ref) + 1
+		}
+	}
 	fw := &failWriter{k: k, transient: variant == 2 || variant == 4}
 	var w io.Writer = fw
 	switch variant {
@@ -151,7 +184,7 @@ func runC14(r *core.Run) {
 	n := core.Pick(r, 2, 3)
 	for _, cn := range []string{"core", "all+autoid+attr"} {
 		cfg := core.MustCfg(cn)
-		wordsSub(r, "words/"+cn, fmt.Sprintf("for each word: every byte offset k in [0,len(out)+1] at which the writer starts failing (short write + sentinel), in 5 writer variants (plain io.Writer, caller-supplied bufio.Writer(16), a writer that also has WriteByte/WriteString/WriteRune; the plain and the rich writer also with a transient failure after which calls succeed again), under %s: error wraps the sentinel, accepted bytes == out[:k]; distinct = reference output digest", cn),
+		wordsSub(r, "words/"+cn, fmt.Sprintf("for each word: every byte offset k in [0,len(out)+1] at which the writer starts failing (short write + sentinel), in 6 writer variants (plain io.Writer, caller-supplied bufio.Writer(16), a writer that also has WriteByte/WriteString/WriteRune; the plain and the rich writer also with a transient failure after which calls succeed again), under %s: error wraps the sentinel, accepted bytes == out[:k]; distinct = reference output digest", cn),
 			alpha, n, func(s *core.Sub, w int) func([]byte) uint64 {
 				return func(word []byte) uint64 {
 					c14Doc(s, cfg, word, 1)
@@ -162,7 +195,7 @@ func runC14(r *core.Run) {
 	ex := Spec(r)
 	for _, cn := range []string{"core+unsafe+xhtml", "all"} {
 		cfg := core.MustCfg(cn)
-		s := r.Sub("spec/"+cn, fmt.Sprintf("all %d spec examples × every failing offset × 5 writer variants under %s", len(ex), cn))
+		s := r.Sub("spec/"+cn, fmt.Sprintf("all %d spec examples × every failing offset × 6 writer variants under %s", len(ex), cn))
 		core.ForEachIndex(len(ex), core.Workers(), func(w int) func(int) {
 			return func(i int) {
 				c14Doc(s, cfg, []byte(ex[i].Markdown), 1)
